@@ -485,9 +485,20 @@ func init() {
 				if strings.HasSuffix(sc.Name, "-1") {
 					b-- // the deep consumer (P3: transient + two scoped dependencies, ~4x the scheduling points)
 				}
-				jobs = append(jobs, mc.Job{Name: sc.Name, Weight: 50, Run: func(r *mc.Report) {
-					exploreScenario(r, sc, mc.Bounds{Preempt: b}, func(e *Env, s *vsched.Sched) []Finding { return c18Builtins(e) })
-				}})
+				ns := 1
+				if b >= 2 {
+					ns = 4
+				}
+				for sh := 0; sh < ns; sh++ {
+					sh := sh
+					name := sc.Name
+					if ns > 1 {
+						name = fmt.Sprintf("%s#%d", sc.Name, sh)
+					}
+					jobs = append(jobs, mc.Job{Name: name, Weight: 50, Run: func(r *mc.Report) {
+						exploreScenario(r, sc, mc.Bounds{Preempt: b, Shard: sh, NShards: ns}, func(e *Env, s *vsched.Sched) []Finding { return c18Builtins(e) })
+					}})
+				}
 			}
 			return jobs
 		},
